@@ -6,6 +6,13 @@ TECH = ('bounded symbolic execution of the go/ssa of the real functions (regener
         'inputs are symbolic bytes, path conditions are decision diagrams over bytes plus z3 constraints, '
         'every harness assertion / runtime check is decided by z3 (bit-vector, or integer encoding with explicit wrap), '
         'sat models are replayed natively')
+
+TECH_BY = {
+ 'C18': 'solver-based part: bounded symbolic execution of the go/ssa of every entry point (inputs are symbolic bytes, path feasibility decided by z3) with a monitor on every store to memory reachable from a package-level variable - no feasible path may write shared state; complemented by a static taint pass over the same SSA (addresses of package-level variables and references loaded from them must not reach a store, map update, copy/append target, sync/atomic write or a callee that writes through its parameter) for code the bounded runs do not reach. Interleavings are NOT encoded or explored: race freedom is inferred from this footprint result by DRF-SC, which is an argument and not a solver verdict (level "other"); a goroutine battery under the race detector is used only to confirm a reported breach',
+ 'C19': TECH + '; allocation sites are taken from the compiler\'s escape analysis (go build -gcflags=-m, regenerated per run) and monitored as events in the symbolic runs; the float conversion\'s call-graph closure is scanned for such sites',
+ 'C20': 'bounded symbolic execution of the go/ssa of the real functions with a byte-cost monitor over a stated allocation cost model; reader size hints are free integer variables; the marginal-cost, single-call amortised and growth-step inequalities are decided by z3 in the integer encoding; sat models are replayed natively with runtime.MemStats.TotalAlloc',
+ 'C04': 'per-tier solver obligations over the go/ssa of internal/fp (regenerated from /repo on every run): symbolic digits / free 64-bit mantissas / free exponent digits, correct rounding stated as linear integer inequalities (R-ROUND), decided by z3 in an integer encoding with explicit wrap-around (bit-vectors only for the right-shift remainder loop); sat models are replayed natively against math/big',
+}
 NOTE = ('trusted: z3; go/ssa; the gosym encoder (validated each run by replaying sampled path classes against the real build); '
         'the Go reference models in harness/zz_verif_ref.go (validated natively against encoding/json, strconv, unicode/utf8); amd64')
 
@@ -53,7 +60,7 @@ def main():
             'engine': 'gosym',
             'level_claimed': {'category': cat, 'text': text, 'design_ref': 'DESIGN.md section ' + ref},
             'level_note': NOTE,
-            'technique': TECH,
+            'technique': TECH_BY.get(pid, TECH),
         })
     na = []
     for pid in ALL:
